@@ -448,7 +448,7 @@ func (f *recordsFam) Gen(r *hx.Run) {
 		r.Case(fmt.Sprintf("%s-%d", kind, id))
 	}
 	outClass := func(out string) string { return strings.Fields(out)[0] }
-	per := r.Pick(40, 4000)
+	per := r.Pick(40, 1000)
 	for ti := range recTypes {
 		rt := &recTypes[ti]
 		var firstEnc []byte
